@@ -271,4 +271,49 @@ theorem folded_frames_in_order (o : Opts) (d : Nat) (fs : List Shown) :
     ((foldFrames o d none 0 fs).filterMap Piece.frameInfo?).Sublist (fs.map (fun s => (s.fr.info, s.mark))) :=
   foldFrames_sublist o d fs none 0
 
+/-! ### one catch object used many times -/
+
+/-- **each_use_reports_its_own_kind**: for every sequence of decorator / context-manager uses of one
+`logger.catch(...)` object, the flag the formatter receives at each use is "this use is a decorator
+use" – nothing survives from earlier uses -/
+theorem each_use_reports_its_own_kind (uses : List Use) :
+    runUses ⟨Gen.catchContextFlag⟩ uses = uses.map (fun u => decide (u = Use.decorator)) := by
+  induction uses with
+  | nil => rfl
+  | cons u us ih =>
+    cases u <;> simp [runUses, useStep, Gen.catchWrapperFlag, Gen.catchContextFlag] <;> exact ih
+
+/-- consequence for the report: whatever was done with the object before, a context-manager use on a
+`backtrace = false` handler shows exactly the traceback's non-hidden frames (suffix-limited) – no
+calling frame is added; a decorator use adds exactly the one calling frame -/
+theorem use_kind_decides_caller_frame (before : List Use) (u : Use) (o : Opts) (hb : o.backtrace = false)
+    (tb parents : List Frame) (hne : tb ≠ []) (hl : limitBlocks o.limit = false) :
+    let flag := (runUses ⟨Gen.catchContextFlag⟩ (before ++ [u])).getLast?.getD false
+    (extractFrames o true flag tb parents).map (·.fr) =
+      applyLimit o.limit ((if u = Use.decorator then (visible parents).take 1 else []) ++ visible tb) := by
+  have hflag : (runUses ⟨Gen.catchContextFlag⟩ (before ++ [u])).getLast?.getD false = decide (u = Use.decorator) := by
+    rw [each_use_reports_its_own_kind]; simp
+  simp only [hflag]
+  rw [frames_are_traceback_frames_in_order]
+  have : tb.isEmpty = false := by cases tb <;> simp_all
+  simp only [this, hl, Bool.or_self, Bool.false_eq_true, if_false, callerFrames, hb]
+  cases u <;> simp
+
+/-- the refuted shape: if the decorator use stored its flag in the shared object, a context-manager
+use after a decorator use would be reported as a decorator use (`harness/c13.py` replays this
+sequence – and longer ones – on the implementation) -/
+theorem shared_flag_leaks :
+    runUsesShared ⟨Gen.catchContextFlag⟩ [Use.decorator, Use.context] = [true, true] ∧
+    runUses ⟨Gen.catchContextFlag⟩ [Use.decorator, Use.context] = [true, false] := by
+  constructor <;> rfl
+
+theorem shared_flag_never_recovers (uses : List Use) :
+    runUsesShared ⟨Gen.catchContextFlag⟩ (Use.decorator :: uses) = List.replicate (uses.length + 1) true := by
+  have key : ∀ us : List Use, runUsesShared ⟨true⟩ us = List.replicate us.length true := by
+    intro us
+    induction us with
+    | nil => rfl
+    | cons u us ih => cases u <;> simp [runUsesShared, useStepShared, Gen.catchWrapperFlag, List.replicate_succ] <;> exact ih
+  simp [runUsesShared, useStepShared, Gen.catchWrapperFlag, List.replicate_succ, key]
+
 end C13
